@@ -243,6 +243,13 @@ var randFuncs = map[string]string{
 func (r *fileRW) seams() {
 	ast.Inspect(r.f, func(n ast.Node) bool {
 		switch n := n.(type) {
+		case *ast.StarExpr:
+			// *net.TCPConn (type assertions, declarations): the simulated connection
+			// offers the TCP-specific calls (SetLinger, SetNoDelay, CloseRead, ...)
+			if name, ok := r.pkgSel(n.X, "net"); ok && name == "TCPConn" {
+				n.X = r.sim("Conn")
+			}
+			return true
 		case *ast.CallExpr:
 			if name, ok := r.pkgSel(n.Fun, "flag"); ok && r.isMain {
 				if name == "Parse" {
